@@ -41,7 +41,10 @@ class Check(PropertyCheck):
             # exhaustive small scope first (every instance <= 2 jobs x 2 operations, durations 0..2, every interleaving)
             self.extra_coverage = {"exhaustive_small_scope": True}
             yield from slices.exhaustive_small("time")
-        for _ in range(n):
+        for _i in range(n):
+            if _i % 20 == 9:
+                yield Scenario(["new", f"mark raiser {rng.randint(0, 10**6)}"], {"family": "raiser", "accepted": 0})
+                continue
             yield self.scenario(rng, tier)
 
     def scenario(self, rng: random.Random, tier) -> Scenario:
@@ -117,6 +120,8 @@ class Check(PropertyCheck):
 
     def oracle(self, impl, scenario, index, line, out, ctx):
         res = []
+        if line.startswith("mark raiser"):
+            return oracles.raiser_episode(int(line.split()[2]))["C06"]
         d = impl.dispatcher
         if line == "mark episode":
             ctx.pop("t", None)
